@@ -8,6 +8,11 @@ import traceback
 
 from .runner import ROOT, REPO, load_known, run_functions
 
+# evidence/ and replays/ of runs against a scratch copy (VERIF_REPO != /repo: mutant and seed experiments) must not
+# overwrite the committed evidence of the real tree
+OUT_ROOT = ROOT if os.path.realpath(REPO) == os.path.realpath('/repo') else \
+    os.path.join(os.environ.get('VERIF_SCRATCH_OUT') or '/var/tmp', 'verif-out-' + os.path.basename(os.path.realpath(REPO)))
+
 ENCODING_ASSUMPTIONS = [
     'engine: pyvc (this repository, /verif/pyvc) - AST-to-SMT symbolic executor; it is itself trusted',
     'python ints are mathematical integers (exact); no floats',
@@ -30,7 +35,7 @@ def load_baseline(prop):
 
 def write_baseline(prop):
     """Record which obligations are discharged on the current (unchanged) tree: bin/verif baseline <prop>."""
-    with open(os.path.join(ROOT, 'evidence', '%s.json' % prop)) as fp:
+    with open(os.path.join(OUT_ROOT, 'evidence', '%s.json' % prop)) as fp:
         ev = json.load(fp)
     out = {}
     for f in ev['coverage']['functions_under_contract']:
@@ -363,8 +368,8 @@ def run_check(prop, tier='quick', seed=0, strict=False, procs=None):
         'wall_s': round(wall, 2),
         'violations': len(final_violations),
     }
-    os.makedirs(os.path.join(ROOT, 'evidence'), exist_ok=True)
-    with open(os.path.join(ROOT, 'evidence', '%s.json' % prop), 'w') as fp:
+    os.makedirs(os.path.join(OUT_ROOT, 'evidence'), exist_ok=True)
+    with open(os.path.join(OUT_ROOT, 'evidence', '%s.json' % prop), 'w') as fp:
         json.dump(evidence, fp, indent=1, default=str)
 
     for ln in lines:
@@ -391,7 +396,7 @@ def run_check(prop, tier='quick', seed=0, strict=False, procs=None):
 # ------------------------------------------------------------------ violations
 
 def write_replay(prop, obligation, payload, no_input=False):
-    d = os.path.join(ROOT, 'replays', prop)
+    d = os.path.join(OUT_ROOT, 'replays', prop)
     os.makedirs(d, exist_ok=True)
     name = ''.join(ch if ch.isalnum() or ch in '._-' else '_' for ch in obligation)[:120]
     path = os.path.join(d, name + '.json')
@@ -400,7 +405,7 @@ def write_replay(prop, obligation, payload, no_input=False):
     payload['rerun'] = 'bin/verif replay replays/%s/%s.json' % (prop, name)
     with open(path, 'w') as fp:
         json.dump(payload, fp, indent=1, default=str)
-    return {'path': os.path.relpath(path, ROOT), 'reproduced': bool(payload.get('reproduced')),
+    return {'path': os.path.relpath(path, ROOT) if OUT_ROOT == ROOT else path, 'reproduced': bool(payload.get('reproduced')),
             'obligation': obligation}
 
 
